@@ -28,6 +28,11 @@ fn finished_model(seed: u64, cfg: &GenCfg) -> ModelGame {
 	if m.end == EndSpec::None {
 		m.end = EndSpec::One(vec![2; spec::end_size(m.v())].iter().enumerate().map(|(i, _)| if i == 0 { 2 } else if i == 1 { 255 } else { 0xFF }).collect());
 	}
+	// every prefix is re-parsed, so the sweeps are quadratic in the file length: keep the bulky / wide metadata
+	// classes (which go up to > 1 MiB in the shared generator) to a size an exhaustive sweep can afford
+	if let Some(md) = m.metadata.as_mut() {
+		md.truncate(24);
+	}
 	m
 }
 
